@@ -737,6 +737,35 @@ def gen_sugar(rng, clash=False, named=True):
     return Spec(rules, terms, tag="sugar-clash" if clash else "sugar")
 
 
+def gen_sugar_lr(rng):
+    """sugar in LR(1)-friendly positions (each repetition closed by a distinct terminal), so that the real
+    parser built from the grammar can be driven by the language oracle"""
+    terms = base_terms(5)
+    items = []
+    closers = ["Td", "Te"]
+    n = rng.randint(1, 2)
+    used_sep = {}
+    for i in range(n):
+        base = rng.choice(["Ta", "A"])
+        op = rng.choice(["?", "*", "+"])
+        sep = None
+        if op != "?" and rng.random() < 0.5:
+            sep = "Tc"
+        key = (base, "?" if op == "?" else "+")
+        if key in used_sep and used_sep[key] != sep:
+            sep = used_sep[key]
+        used_sep[key] = sep
+        a = Assign(Ref(("n", base), (op, [sep] if sep else None)))
+        if rng.random() < 0.3:
+            a = Assign(a.ref, rng.choice("pb"), rng.choice(ANAMES))
+        items += [a, Assign(Ref(("n", closers[i])))]
+    rules = [Rule("S", [Alt(items)]), Rule("A", [Alt([Assign(Ref(("n", "Tb")))]),
+                                                 Alt([Assign(Ref(("n", "Tb"))), Assign(Ref(("n", "Ta")))])])]
+    if rng.random() < 0.3:
+        rules[0].alts.append(Alt([Assign(Ref(("n", "Tc"))), Assign(Ref(("n", "EMPTY")))]))
+    return Spec(rules, terms, tag="sugar-lr")
+
+
 META_PROD = [("k", "left"), ("k", "right"), ("k", "reduce"), ("k", "shift"), ("k", "nops"), ("k", "nopse"),
              ("k", "dynamic"), ("i", "5"), ("i", "15"), ("i", "0"), ("i", "007"), ("i", "120"), ("K", "Add"),
              ("K", "Mul"), ("K", "P1"), ("u", "bla", ("i", "10")), ("u", "bla", ("i", "5")),
@@ -836,8 +865,10 @@ def gen_names(rng):
         op = {"A1": "+", "A0": "*", "AOpt": "?"}[h]
         rules = [Rule("S", [Alt([T(h), T("X")])]), Rule(h, [Alt([T("Tb")])]),
                  Rule("X", [Alt([Assign(Ref(("n", "A"), (op, None)))])]), Rule("A", [Alt([T("Ta")])])]
-    elif k == 2:    # rule that is its own helper
+    elif k == 2:    # rule that is its own helper (with a later rule referenced: index out of bounds)
         rules = [Rule("A1", [Alt([T("Tb"), Assign(Ref(("n", "A"), ("+", None)))])]), Rule("A", [Alt([T("Ta")])])]
+        if rng.random() < 0.5:
+            rules = [Rule("S", [Alt([T("A1"), T("B")])])] + rules + [Rule("B", [Alt([T("Ta")])])]
     elif k == 3:    # terminal named like a helper
         terms = terms + [TermRule("Ta1", ("S", "z"))]
         rules = [Rule("S", [Alt([Assign(Ref(("n", "Ta"), ("+", None))), T("Tb")])])]
@@ -923,6 +954,8 @@ def gen_broken(rng):
         terms = terms + [TermRule(rng.choice(["Ta", "Tb", "Tc"]), ("S", "q"))]
         if rng.random() < 0.5:
             terms = terms + [TermRule("Ta", ("S", "r"))]
+        if rng.random() < 0.3:      # many duplicates: the surviving index leaves the nonterminal vector
+            terms = terms + [TermRule("Tc", ("S", "x")) for _ in range(rng.randint(3, 6))]
         rules = [Rule("S", [Alt([T("Ta"), T("Tb")]), Alt([T("Tc")])])]
     elif k == 2:    # terminals only
         return Spec(None, terms, tag="broken-terminals-only")
@@ -1015,3 +1048,75 @@ RAW_VALID = ["import 'x'\nS: Ta;\nterminals\nTa: 'a';\n",
 # therefore never contain `false`.
 RAW_KNOWN = [("text:bool-false", "S: Ta {flag: false};\nterminals\nTa: 'a';\n"),
              ("text:bool-false", "S: Ta {bla: 5} | Tb {flag:false};\nterminals\nTa: 'a';\nTb: 'b';\n")]
+
+
+def spec_of_ast(line):
+    """inverse of render_ast (float source texts become their display text, group texts are lost)"""
+    t = line.split(" ")
+    pos = [0]
+
+    def tok():
+        pos[0] += 1
+        return t[pos[0] - 1]
+
+    def name(x):
+        return unhx(x).decode()
+
+    def metas():
+        out = []
+        for _ in range(int(tok())):
+            f = tok().split(":")
+            if f[0] == "k":
+                out.append(("k", f[1]))
+            elif f[0] == "i":
+                out.append(("i", f[1]))
+            elif f[0] == "K":
+                out.append(("K", name(f[1])))
+            else:
+                v = {"i": lambda: ("i", f[3]), "f": lambda: ("f", name(f[3]), name(f[3])),
+                     "b": lambda: ("b", f[3] == "1"), "s": lambda: ("s", name(f[3]))}[f[2]]()
+                out.append(("u", name(f[1]), v))
+        return out
+
+    def ref():
+        s_ = tok()
+        sym = ("G", "Ta") if s_ == "G" else (s_[0], name(s_[2:]))
+        r = tok()
+        if r == "-":
+            return Ref(sym)
+        o, m = r.split(":")
+        op = {v: k for k, v in OPS.items()}[o]
+        mods = None if m == "-" else ([] if m == "." else [name(x) for x in m.split("+")])
+        return Ref(sym, (op, mods))
+    terms = None
+    if tok() == "T":
+        terms = []
+        for _ in range(int(tok())):
+            tok()
+            n_ = name(tok())
+            an = tok()
+            rc = tok()
+            terms.append(TermRule(n_, None if rc == "-" else (rc[0], name(rc[2:])), metas(),
+                                  None if an == "-" else name(an)))
+    rules = None
+    if tok() == "R":
+        rules = []
+        for _ in range(int(tok())):
+            tok()
+            n_ = name(tok())
+            an = tok()
+            ms = metas()
+            alts = []
+            for _ in range(int(tok())):
+                tok()
+                asg = []
+                for _ in range(int(tok())):
+                    k = tok()
+                    if k in "pb":
+                        an_ = name(tok())
+                        asg.append(Assign(ref(), k, an_))
+                    else:
+                        asg.append(Assign(ref()))
+                alts.append(Alt(asg, metas()))
+            rules.append(Rule(n_, alts, ms, None if an == "-" else name(an)))
+    return Spec(rules, terms, tag="replay")
